@@ -75,6 +75,9 @@ func main() {
 		fmt.Fprintln(os.Stderr, err)
 		os.Exit(2)
 	}
+	if abs, err := filepath.Abs(*out); err == nil {
+		*out = abs
+	}
 	os.RemoveAll(*out)
 	os.MkdirAll(*out, 0o755)
 	for _, p := range pkgs {
